@@ -565,6 +565,77 @@ func ruleHistory(c *Ctx) {
 	}
 	c.Floor("HISTORY", "stores that replace a generation of the history", nStores, 2)
 
+	// (e) every cache a constructor hands out has its generations allocated: a cache built without maps (for size 0, say)
+	// and resized later makes Add write into a nil map — the handler's recover frame then drops every connection
+	insertGen := map[string]bool{}
+	for _, f := range p.FnsIn("service") {
+		for _, b := range f.Blocks {
+			for _, ins := range b.Instrs {
+				if mu, ok := ins.(*ssa.MapUpdate); ok {
+					if g, ok := m.genOf(p, mu.Map); ok {
+						insertGen[g] = true
+					}
+				}
+			}
+		}
+	}
+	for _, f := range p.FnsIn("service") {
+		if p.IsTestSupport(f) || f.Parent() != nil || f.Signature.Results().Len() != 1 || eng.TypeName(f.Signature.Results().At(0).Type()) != replayT {
+			continue
+		}
+		for i, r := range eng.Returns(f) {
+			var allocs []*ssa.Alloc
+			zeroValue := false
+			for _, o := range p.Origins(r.Results[0], eng.OriginOpts{ThroughConvert: true, Stop: m.stopAtGen}) {
+				switch x := o.(type) {
+				case *ssa.Const:
+					zeroValue = true // ReplayCache{}
+				case *ssa.Alloc:
+					allocs = append(allocs, x)
+				case *ssa.UnOp:
+					if al, ok := x.X.(*ssa.Alloc); ok {
+						allocs = append(allocs, al)
+					}
+				}
+			}
+			if zeroValue {
+				c.CheckAt("HISTORY", fmt.Sprintf("%s:return#%d:constructed-with-its-generations", short(f), i), r, false, "the constructor can hand out the zero cache (nil maps): once the history is resized above zero, Add writes into a nil map and panics for every handshake")
+				continue
+			}
+			if len(allocs) == 0 {
+				continue
+			}
+			for _, g := range m.gens {
+				okG := true
+				for _, al := range allocs {
+					set := false
+					for _, rr := range *al.Referrers() {
+						fa, isFA := rr.(*ssa.FieldAddr)
+						if !isFA {
+							continue
+						}
+						if _, fl, _, ok := eng.FieldOf(fa); !ok || fl != g {
+							continue
+						}
+						for _, r2 := range *fa.Referrers() {
+							if st, isSt := r2.(*ssa.Store); isSt && st.Addr == ssa.Value(fa) {
+								if _, isMk := p.Resolve(st.Val).(*ssa.MakeMap); isMk {
+									set = true
+								}
+							}
+						}
+					}
+					if !set && insertGen[g] {
+						okG = false
+					}
+				}
+				if insertGen[g] {
+					c.CheckAt("HISTORY", fmt.Sprintf("%s:return#%d:constructed-with-its-%s-generation", short(f), i, g), r, okG, fmt.Sprintf("the constructor can hand out a cache whose %q map is nil: once the history is resized above zero, Add writes into a nil map and panics for every handshake", g))
+				}
+			}
+		}
+	}
+
 	// (b)–(d): Add and its core
 	add := p.Fn("(*" + replayT + ").Add")
 	if add == nil {
